@@ -401,11 +401,29 @@ def check_c17(tier, seed):
     os.makedirs(sdir, exist_ok=True)
     out = os.path.join(sdir, "result.json")
     iters, shapes = (250, 16) if tier == "quick" else (6000, 64)
-    r = run([SHUTTLE_BIN, "run", "--seed", str(seed), "--iters", str(iters), "--shapes", str(shapes), "--out", out, "--dir", sdir])
-    if r.returncode not in (0, 1) or not os.path.exists(out):
+    shuttle_args = ["run", "--seed", str(seed), "--iters", str(iters), "--shapes", str(shapes)]
+    r = run([SHUTTLE_BIN] + shuttle_args + ["--out", out, "--dir", sdir])
+    if dies(r.returncode):
+        # the scenario corrupted memory and the process was killed: the whole seeded run is the replay
+        sig = "C17|schedule|process_death"
+        dest_dir = os.path.join(REPLAYS, prop)
+        os.makedirs(dest_dir, exist_ok=True)
+        dest = os.path.join(dest_dir, "shuttle-death-seed%d.shuttlerun" % seed)
+        open(dest, "w").write("# the shuttle scenario process is killed (exit %s): memory corruption reached from safe Reference calls\n"
+                              "args=%s\nexpect=%s\n" % (r.returncode, " ".join(shuttle_args), sig))
+        r2 = run([SHUTTLE_BIN] + shuttle_args + ["--out", out, "--dir", sdir])
+        if not dies(r2.returncode):
+            harness_error("shuttle run died once (exit %s) but not when repeated" % r.returncode)
+        violations += 1
+        lines.append("VIOLATION property=%s replay=%s" % (prop, dest))
+        lines.append("  signature=%s detail=%s" % (sig, (r.stdout.strip().splitlines() or ["killed"])[-1][:200]))
+        sres = {"iters_per_scheduler": iters, "schedulers": 0, "executions": 0, "distinct_interleavings": 0, "contended_executions": 1,
+                "linearizability_checked": 0, "wall_s": 0.001, "failures": []}
+    elif r.returncode not in (0, 1) or not os.path.exists(out):
         print(r.stdout[-3000:])
-        harness_error("shuttle run died (exit %s)" % r.returncode)
-    sres = json.load(open(out))
+        harness_error("shuttle run failed (exit %s)" % r.returncode)
+    else:
+        sres = json.load(open(out))
     known = load_known()
     for f in sres["failures"]:
         if not f["schedule_file"]:
@@ -893,6 +911,14 @@ def main():
     if replay and replay.endswith(".c19"):
         kv = dict(l.strip().split("=", 1) for l in open(replay) if "=" in l and not l.startswith("#"))
         check_c19(kv.get("tier", "quick"), int(kv["seed"]), only_run=int(kv["run"]), only_mode=kv["mode"], only_build=kv["build"])
+    if replay and replay.endswith(".shuttlerun"):
+        kv = dict(l.strip().split("=", 1) for l in open(replay) if "=" in l and not l.startswith("#"))
+        build_shuttle()
+        r = run([SHUTTLE_BIN] + kv["args"].split() + ["--out", "/dev/null", "--dir", os.path.join(REPLAYS, "tmp", "shuttle-replay")])
+        if dies(r.returncode):
+            print("VIOLATION property=%s replay=%s" % (prop, replay))
+            sys.exit(1)
+        sys.exit(0)
     if replay and replay.endswith(".static"):
         kv = dict(l.strip().split("=", 1) for l in open(replay) if "=" in l and not l.startswith("#"))
         if kv.get("accessor") in scan_accessors():
